@@ -331,9 +331,9 @@ Section Main.
     { pose proof (build_append cur frs) as Q. fold news in Q. congruence. }
     clear Hb. subst m'.
     assert (Hnd' : NoDup (ids_of (m_frags cur ++ news))).
-    { apply (NoDup_cur_news frows cur (m_frags cur) frs Hw (proj1 Hn) Hnd). auto. }
+    { apply (NoDup_cur_news frows fcontent cur (m_frags cur) frs Hw (proj1 Hn) Hnd). auto. }
     assert (Hdisj : forall i, In i (ids_of news) -> ~ In i (ids_of (m_frags cur))).
-    { intros i Hi. exact (fresh_disjoint frows cur frs i Hw (proj1 Hn) Hi). }
+    { intros i Hi. exact (fresh_disjoint frows fcontent cur frs i Hw (proj1 Hn) Hi). }
     assert (W : wf_manifest (mk_manifest cur (m_schema cur) (m_frags cur ++ news) (m_indices cur))).
     { apply (mk_manifest_wf frows fcontent); [exact Hnd' | | exact Hs]. intros f Hf. apply in_app_or in Hf as [Hf | Hf];
         [exact (Hwf f Hf) | exact (assigned_wf frows frs _ f Hn Hf)]. }
@@ -341,9 +341,9 @@ Section Main.
     unfold Model_Txn.apply_effect. cbn [Model_Txn.abs t_schema]. rewrite Hcov. eexists. split; [reflexivity|].
     unfold Model_Txn.table_eq, add_frags.
     cbn [Model_Txn.abs t_schema t_maxfid t_config t_live t_cell m_schema m_config].
-    fold (next_of cur). fold news.
+    change (next_id (abs cur)) with (next_of cur). fold news.
     split; [reflexivity | split; [|split; [reflexivity | split]]].
-    - rewrite maxfid_mk. apply (maxfid_kept_news frows cur (m_frags cur) news Hw). auto.
+    - rewrite (maxfid_mk frows fcontent). apply (maxfid_kept_news frows cur (m_frags cur) news Hw). auto.
     - intros f o. rewrite live_at_mk by exact Hnd'. unfold Model_Txn.live_at. rewrite (find_kept_news _ _ f Hdisj).
       destruct (find_frag f news); reflexivity.
     - intros f o x _ Hx. rewrite cell_at_mk by (try exact Hnd'; apply Hs; exact Hx). unfold Model_Txn.cell_at.
